@@ -25,6 +25,22 @@ type embed struct {
 type mdef struct {
 	name    string
 	ptrRecv bool
+	bump    int // which statement form changes the receiver (struct types)
+}
+
+// structBumps are ways of writing to the receiver's field: whether a value receiver has to
+// be copied is decided by looking for such writes.
+var structBumps = []string{
+	"r.v += 100",
+	"r.v++",
+	"r.v, _ = r.v+100, 0",
+	"_, r.v = 0, r.v+100",
+	"p := &r.v\n\t*p += 100",
+	"func() { r.v += 100 }()",
+	"for i := range [1]int{} {\n\t\tr.v += 100 + i\n\t}",
+	"r.v = r.v + 100",
+	"var ok bool\n\tr.v, ok = map[int]int{1: r.v + 100}[1]\n\t_ = ok",
+	"r.v--",
 }
 
 type tdef struct {
@@ -66,6 +82,7 @@ func genFamily(rt *rapid.T) family {
 		}
 		f.ifaces = append(f.ifaces, d)
 	}
+	bumpSeq := rapid.IntRange(0, len(structBumps)-1).Draw(rt, "bumpsalt")
 	nt := rapid.IntRange(4, 9).Draw(rt, "ntypes")
 	for i := 0; i < nt; i++ {
 		t := tdef{name: fmt.Sprintf("T%d", i)}
@@ -99,7 +116,9 @@ func genFamily(rt *rapid.T) family {
 				continue
 			}
 			seen[name] = true
-			t.methods = append(t.methods, mdef{name, rapid.Bool().Draw(rt, "ptrrecv")})
+			// the write forms are handed out round robin (rapid's draws favour small values)
+			bumpSeq++
+			t.methods = append(t.methods, mdef{name, rapid.Bool().Draw(rt, "ptrrecv"), bumpSeq % len(structBumps)})
 		}
 		f.types = append(f.types, t)
 	}
@@ -143,7 +162,7 @@ func (f family) declSource() string {
 			var bump, self string
 			switch t.kind {
 			case "struct":
-				bump, self = "r.v += 100", "itoa(r.v)"
+				bump, self = structBumps[m.bump], "itoa(r.v)"
 			case "int":
 				if m.ptrRecv {
 					bump, self = "*r += 100", "itoa(int(*r))"
